@@ -882,6 +882,15 @@ def remap_by_types(
                 # 'a' + 'b'
                 self._found_types[node] = t_left
                 self._found_types[t_node] = t_left
+            elif (
+                isinstance(node.op, (ast.Mult, ast.Mod))
+                and (t_left in (str, bytes) or t_right in (str, bytes))
+                and not (isinstance(node.op, ast.Mod) and t_left not in (str, bytes))
+            ):
+                # '-' * 3, 3 * '-', '%d' % 3
+                t_text = t_left if t_left in (str, bytes) else t_right
+                self._found_types[node] = t_text
+                self._found_types[t_node] = t_text
             elif (t_left == float) or (t_right == float):
                 self._found_types[node] = float
                 self._found_types[t_node] = float
